@@ -28,11 +28,11 @@ RULE = (
 EXHAUSTIVE_SUBSPACES = ["all 4 (fold, optimize) combinations per case"]
 ASSUMPTIONS = ["for derived circuits the shared tensors belong to the operands: 'exactly once' is asserted on the owning circuit, presence + round trip on the derived one"]
 FLOOR = {"pipeline": 1, "ccp:pointer-fold-idx": 1, "cc:fold>1:TorchEvidenceLayer": 1, "in:constant-lin": 1, "torch.save": 1, "third-instance": 1,
-         "outputs_compared_bitexact": 100, "derived-after-base-reload": 1, "derived-compiled-after-load": 1, "warm-fresh-differs-before-load": 1}
+         "outputs_compared_bitexact": 100, "derived-after-base-reload": 1, "derived-compiled-after-load": 1, "derived-own-dict-reload": 1, "warm-fresh-differs-before-load": 1}
 
 
 def plan(tier, seed):
-    n = 7 if tier == "quick" else 70
+    n = 7 if tier == "quick" else 280
     cases = []
     for name in ["mixed", "mono", "kron3", "mixing", "poly", "complex", "const", "multi", "interior", "sparse", "structured", "samekind-fold"]:
         for k in range(n):
@@ -179,6 +179,21 @@ def run_case(case) -> Result:
                             # constants of derived circuits are re-created identically by compilation
                             if not bit_equal(o.value, outs_A[id(c)]):
                                 res.violate("derived-differs-after-base-reload", f"[{tag}] derived circuit#{circuits.index(c)} differs after reloading only its operands")
+            # the derived circuit's own dictionary alone, loaded into a fresh instance of the derived
+            # circuit, must carry every tensor the derived circuit reads
+            Dc = C.new_compiler(sr, fold, opt)
+            if C.compile_in(res, Dc, root, f"D [{tag}]") is not None:
+                ccD = Dc.get_compiled_circuit(root)
+                o = call(ccD.load_state_dict, sds[id(root)], strict=True)
+                if not o.ok:
+                    res.violate("load-state-dict-failed", f"[{tag}] derived circuit's own dictionary: {o.exc_type}: {str(o.exc)[:300]}")
+                else:
+                    o = call(C.evaluate, ccD, pools[id(root)])
+                    if o.ok:
+                        res.features.add("derived-own-dict-reload")
+                        res.count("outputs_compared_bitexact", int(np.prod(o.value.shape)))
+                        if not bit_equal(o.value, outs_A[id(root)]):
+                            res.violate("derived-differs-after-own-dict-reload", f"[{tag}] the derived circuit reloaded from its own state dictionary differs from the saved one (its dictionary does not carry the tensors it reads)")
             # lazily: only the operands exist when the dictionaries are loaded (another instance of the same
             # symbolic circuits is compiled elsewhere in between); derived circuits are compiled afterwards
             L, M = C.new_compiler(sr, fold, opt), C.new_compiler(sr, fold, opt)
